@@ -228,6 +228,7 @@ func (w *world) request(actor, n int, r *rand.Rand, viaIdx int) {
 	w.mu.Unlock()
 	ctx, cancel := context.WithCancel(context.Background())
 	defer cancel()
+	spin := r.Intn(40)
 	if cancelAt != "" {
 		go func() {
 			if cancelAt == "seen" {
@@ -235,7 +236,7 @@ func (w *world) request(actor, n int, r *rand.Rand, viaIdx int) {
 			} else {
 				<-pl.firstSent
 			}
-			for i, k := 0, r.Intn(40); i < k; i++ {
+			for i := 0; i < spin; i++ {
 				runtime.Gosched()
 			}
 			w.log.add(ev{Ev: "cancel-call", RQ: rq})
